@@ -80,8 +80,11 @@ func (w *skelWalker) call(c *ast.CallExpr) {
 		case root == w.recv && len(path) == 2 && path[0] == "dictionary":
 		case root == w.recv && len(path) >= 1:
 			tok = "call:" + strings.Join(path, ".")
-		case w.params[root] && (path[len(path)-1] == "ForEach" || path[len(path)-1] == "Range"):
+		case w.params[root] && (path[len(path)-1] == "ForEach" || path[len(path)-1] == "Range" || path[len(path)-1] == "ToSlice"):
 			tok = "call:arg." + path[len(path)-1]
+		case len(path) >= 2 && (path[len(path)-2] == "applyMutex" || path[len(path)-2] == "mutex"):
+			// a lock of another object (e.g. of the argument) is taken directly
+			tok = "other:" + path[len(path)-2] + "." + path[len(path)-1]
 		}
 	}
 	if sel, ok := c.Fun.(*ast.SelectorExpr); ok {
